@@ -32,7 +32,7 @@ def gain_ids(h):
 
 def base_event():
     return {"ev": "Fading", "shape_ok": True, "xs": [], "hs": [], "ns": [], "ys": [], "blocks": [], "T": 1, "distinct_required": 0, "gain_ppm": -1, "gain_band_ppm": 0,
-            "k10": -1, "los_ppm": 0}
+            "k10": -1, "los_ppm": 0, "corr_ppm": 0, "icorr_ppm": 0, "corr_band_ppm": 0}
 
 
 def run(run):
@@ -134,6 +134,23 @@ def run(run):
             e["los_ppm"] = sint(abs(complex(h.mean())) ** 2 * 1e6)
         add(e, comp, {"fading": kname, "case": "statistics", "K": K, "K_type": type(K).__name__})
         run.case(("stats", kname, K, type(K).__name__), nontrivial=True)
+    # --- independence of the gains: log-power correlation between two blocks of one item, and between the same block of neighbouring items
+    NI = 200000
+    for (kname, mk, comp, K) in kinds:
+        y = mk(1)(torch.ones(NI, 2))
+        h = y.reshape(NI, 2).to(torch.complex128)
+        lp = torch.log(h.abs() ** 2 + 1e-300)
+
+        def corr(a, b):
+            a = a - a.mean()
+            b = b - b.mean()
+            return float((a * b).mean() / torch.sqrt((a * a).mean() * (b * b).mean()))
+        e = base_event()
+        e["corr_ppm"] = sint(corr(lp[:, 0], lp[:, 1]) * 1e6)
+        e["icorr_ppm"] = sint(corr(lp[:-1, 0], lp[1:, 0]) * 1e6)
+        e["corr_band_ppm"] = int(7e6 / math.sqrt(NI)) + 500
+        add(e, comp, {"fading": kname, "case": "independence"})
+        run.case(("independence", kname), nontrivial=True)
     # --- noise stage relative to the faded signal (as C07): supply csi, let the channel draw the noise
     noise_evs = []
     for snr in (0.0, 10.0, 30.0):
